@@ -810,6 +810,16 @@ val wf_md_from :
 val wf_md :
   (text -> bool) -> (text list -> bool) -> (text -> bool) -> elem list -> bool
 
+val ends_with_lf : n list -> bool
+
+val s_EQUAL : n list
+
+val needs_kind : n list -> bool
+
+val expectation_line : mode -> n list -> text
+
+val rule_matches : rule -> n list -> bool
+
 val make_exp : bool -> bool -> (nat -> bool) -> nat exp
 
 val exp_opt : nat exp -> bool
